@@ -205,6 +205,7 @@ pub struct Features {
     pub escapes: bool,
     pub multi_a2ml: bool,
     pub positions_out_of_order: bool,
+    pub unusable_a2ml: bool,
 }
 
 #[derive(Debug, Clone)]
@@ -224,6 +225,9 @@ pub struct GenOpts {
     pub shuffle_positions: bool,
     /// uninterpreted IF_DATA may contain a block named A2ML (its content reaches the parser as one raw text token)
     pub ifdata_a2ml_block: bool,
+    /// the text of the A2ML block is not a usable definition (a declaration without IF_DATA block, an unknown
+    /// keyword): non-strict loading accepts the file with a diagnostic and keeps the text
+    pub unusable_a2ml: bool,
 }
 
 impl GenOpts {
@@ -243,11 +247,13 @@ impl GenOpts {
             // only C03 turns this on: such a block does not survive a write/reload cycle unchanged (raw text
             // becomes a quoted string), which is a property of this artificial construct, not a finding
             ifdata_a2ml_block: false,
+            // only C01 (non-strict histories) turns this on
+            unusable_a2ml: false,
         }
     }
 
     pub fn plain(budget: i64) -> GenOpts {
-        GenOpts { budget, allow_a2ml: false, allow_ifdata: false, unicode: false, wild_numbers: false, float_overflow: false, escapes: false, raw_newline_strings: false, density: 6, shuffle_positions: false, ifdata_a2ml_block: false }
+        GenOpts { budget, allow_a2ml: false, allow_ifdata: false, unicode: false, wild_numbers: false, float_overflow: false, escapes: false, raw_newline_strings: false, density: 6, shuffle_positions: false, ifdata_a2ml_block: false, unusable_a2ml: false }
     }
 }
 
@@ -487,6 +493,14 @@ impl<'t> DocGen<'t> {
         let mut node = Node { tag: tag.to_string(), block: el.block, body: Vec::new(), name: None };
         if tag == "A2ML" {
             let def = crate::a2mlgen::gen_a2ml(self.t);
+            if self.opts.unusable_a2ml {
+                // the IF_DATA in the rest of the file then stay uninterpreted
+                let text = self.t.pick_str(&["\n    struct Only_a_type { int; };\n  ", "\n    block \"IF_DATA\" taggedunion { \"X\" unknown_type; };\n  ", "\n    this is not A2ML at all;\n  ", " "]);
+                node.body.push(Item::Raw(text.to_string()));
+                self.feats.a2ml = true;
+                self.feats.unusable_a2ml = true;
+                return node;
+            }
             node.body.push(Item::Raw(def.text.clone()));
             self.a2ml_variant = Some(def);
             self.a2ml_count += 1;
@@ -1141,6 +1155,7 @@ pub fn merge_feats(a: &Features, b: &Features) -> Features {
         escapes: a.escapes || b.escapes,
         multi_a2ml: a.multi_a2ml || b.multi_a2ml,
         positions_out_of_order: a.positions_out_of_order || b.positions_out_of_order,
+        unusable_a2ml: a.unusable_a2ml || b.unusable_a2ml,
     }
 }
 
